@@ -72,6 +72,9 @@ def diff_obs(a: Dict[str, Any], b: Dict[str, Any]) -> Tuple[List[str], List[str]
         if va != vb:
             names.append(f"mem.{w}")
             det.append(f"mem.{w} orig={va} restored={vb}")
+    if a.get("memmap") != b.get("memmap"):
+        names.append("mem.readonly-map")
+        det.append(f"write-protected address set orig={a.get('memmap')} restored={b.get('memmap')}")
     la, lb = a.get("lcd") or {}, b.get("lcd") or {}
     if la.get("chips") != lb.get("chips"):
         names.append("lcd.state")
